@@ -332,6 +332,60 @@ def durable_programs(p, impl):
     return n, bad
 
 
+def full_delete_programs(p, impl):
+    """-> (number compared, mismatch texts): every file-system step of each Delete seen by the FS tap - the syncs of the
+    writing segment, the rewrite with its fsyncs, the swap - vs DurableDelete.delete_full"""
+    model, case = {}, None
+    for line in open(p + '.delprog'):
+        line = line.rstrip('\n')
+        if line.startswith('case '):
+            case = line[5:]
+        elif line.startswith('xprog '):
+            f = line.split(' ', 2)
+            model[(case, int(f[1]))] = [x.strip() for x in (f[2] if len(f) > 2 else '').split(';') if x.strip()]
+
+    def nm(x):
+        if x.endswith('.log.rewrite.X'):
+            return 'T.log'
+        if x.endswith('.index.rewrite.X'):
+            return 'T.index'
+        return x
+    seen, skip = {}, set()
+    for name, img in impl.items():
+        if name.endswith('@run') or 'powerloss=' in img['header'] or 'torn' in img['header']:
+            continue
+        hdr = dict(kv_.split('=', 1) for kv_ in img['header'].split()[1:] if '=' in kv_)
+        kind, path = hdr.get('kind'), hdr.get('path', '').split(',')[0]
+        key = (name.split('@')[0], int(hdr['inflight']))
+        if kind not in ('create', 'write', 'fsync', 'rename', 'remove'):
+            continue
+        if hdr.get('tmp') == '1':
+            # index.Write goes through <file>.tmp: the tap reports its steps under the name of the file it becomes
+            if '.rewrite.' not in path:
+                skip.add(key)        # the lazy rebuild of a missing segment index inside the call: not part of delete_full
+                continue
+            if kind in ('remove', 'rename'):
+                continue
+        if kind == 'fsync':
+            ev = 'fsync %s' % nm(path)
+        elif kind in ('create', 'write'):
+            ev = '%s %s %s' % (kind, nm(path), hdr.get('n'))
+        elif kind == 'rename':
+            ev = 'rename %s %s' % (nm(path), nm(hdr.get('to', '')))
+        else:
+            ev = 'remove %s' % nm(path)
+        seen.setdefault(key, []).append((int(hdr['k']), ev))
+    n, bad = 0, []
+    for key, prog in model.items():
+        if key in skip:
+            continue
+        obs = [e for _, e in sorted(seen.get(key, []))]
+        n += 1
+        if obs != prog:
+            bad.append('workload %s, op %d: implementation performs %s; DurableDelete.delete_full says %s' % (key[0], key[1], obs, prog))
+    return n, bad
+
+
 def durable_acks(run_ops):
     """w after each op: the largest offset bound acknowledged as durable (Sync, AutoSync publish, Close)"""
     ws, w, nxt, autosync = [], 0, 0, False
@@ -384,6 +438,33 @@ def p_image_pl(name, img, states, run_ops):
     return fails
 
 
+def p_image_mid(name, img, states, run_ops):
+    """C06 on a plain crash image (a power loss that happened to lose nothing that was written): whatever was acknowledged
+    as durable before the call in flight, and is live both before and after that call, is there after Recover"""
+    hdr = dict(kv_.split('=', 1) for kv_ in img['header'].split()[1:] if '=' in kv_)
+    i = int(hdr['inflight'])
+    acks = durable_acks(run_ops)
+    w = acks[i - 1] if i > 0 else 0
+    before, after = states[i][0], states[i + 1][0]
+    ops = img['ops']
+    opens = [r for o, r in ops if o.startswith('open')]
+    if not opens or opens[0] != ['ok']:
+        return [('recover_open_succeeds', 'Open(Recover) -> %s' % (opens[0] if opens else None))]
+    sc = scan_of(ops, 0)
+    if sc is None:
+        return [('recovered_log_readable', 'scan failed')]
+    msgs, nxt = sc
+    fails = []
+    must = [after[o] for o in sorted(after) if o < w and before.get(o) == after[o]]
+    missing = [m for m in must if m not in msgs]
+    if missing:
+        fails.append(('synced_messages_survive', 'w=%d: recovered %s; acknowledged as durable, live before and after the call in flight, '
+                      'but missing: %s' % (w, [m.split('|')[0] for m in msgs], [m.split('|')[0] for m in missing])))
+    if nxt is None or nxt < w:
+        fails.append(('next_offset_at_least_synced', 'NextOffset %s < w=%d' % (nxt, w)))
+    return fails
+
+
 def c06_extra(pid, tier, seed):
     return crash_extra(pid, tier, seed, powerloss=True)
 
@@ -400,7 +481,7 @@ def crash_extra(pid, tier, seed, powerloss):
     try:
         viol, nimg, ntorn, mism, nview = [], 0, 0, [], 0
         nprog, progbad = 0, []
-        ndur, durbad = 0, []
+        ndur, durbad, nfull = 0, [], 0
         known_hits = {}
         dist = {}
         for p in paths:
@@ -414,6 +495,9 @@ def crash_extra(pid, tier, seed, powerloss):
                 a, b = durable_programs(p, impl)
                 ndur += a
                 durbad += b
+                a, b = full_delete_programs(p, impl)
+                nfull += a
+                durbad += b
             pchk = [l for l in open(p + '.pcheck') if l.startswith('PFAIL')]
             viewfails = {}
             for l in pchk:
@@ -424,20 +508,22 @@ def crash_extra(pid, tier, seed, powerloss):
             for name, img in impl.items():
                 if name.endswith('@run'):
                     continue
-                if ('powerloss=' in img['header']) != powerloss:
+                is_pl = 'powerloss=' in img['header']
+                if is_pl and not powerloss:
                     continue
+                mid = powerloss and not is_pl      # C06 also judges the plain crash images: a power loss may lose nothing
                 wname = name.split('@')[0]
                 run_ops = runs[wname]['ops']
                 states = acked_states(run_ops)
                 nimg += 1
                 ntorn += 1 if 'torn=' in img['header'] else 0
                 dist[wname.split('-k')[0]] = dist.get(wname.split('-k')[0], 0) + 1
-                fails = (p_image_pl if powerloss else p_image)(name, img, states, run_ops)
+                fails = (p_image_mid if mid else p_image_pl if powerloss else p_image)(name, img, states, run_ops)
                 # time lookups and Check are claimed only for directories whose publish times never went back over
                 # their whole life - deleted messages included, which the recovered log no longer shows; the 'b'
                 # workloads publish such times (the writer's carried timestamp, DESIGN 12.4)
                 back_times = re.search(r'k\dt1bv', name) is not None
-                for cl, op, got in viewfails.get(name, []):
+                for cl, op, got in ([] if mid else viewfails.get(name, [])):
                     if back_times and cl in ('get_by_time', 'closed_segments_check', 'offset_by_time'):
                         continue
                     fails.append(('views_agree:' + cl, '%s -> %s' % (op, got)))
@@ -454,7 +540,7 @@ def crash_extra(pid, tier, seed, powerloss):
                                               '\n'.join('#   %s: %s' % f for f in fails),
                                               '\n'.join('#   ' + o for o, _ in run_ops),
                                               '\n'.join('%s\n%s' % (o, '\n'.join('= ' + r for r in rs)) for o, rs in img['ops'])[:6000])))
-                else:
+                elif not mid:
                     # correspondence of the recovery itself (only for images the property accepts)
                     mops = model.get(name, [])
                     for k, (op, res) in enumerate(img['ops']):
@@ -491,11 +577,13 @@ def crash_extra(pid, tier, seed, powerloss):
                                   % (rounds, (res[0] if res else r.stderr[-500:]))))
         if not viol and durbad:
             viol.append(('corr', '# correspondence corr:%s/durable-programs no longer checks: the write / fsync / create steps of a Publish, '
-                                 'Sync or Close differ from the steps of coq/Durable.v (publish_kinds / sync_kinds; theorems '
-                                 'C06_sealed_segments_stay_durable / C06_sync_makes_everything_durable / C06_acked_lengths_survive)\n# %s\n'
+                                 'Sync, Close or Delete differ from the steps of coq/Durable.v (publish_kinds / sync_kinds; theorems '
+                                 'C06_sealed_segments_stay_durable / C06_sync_makes_everything_durable / C06_acked_lengths_survive) or of '
+                                 'coq/DurableDelete.v (delete_full; theorems C06_delete_steps_keep_durable / C06_delete_end_durable)\n# %s\n'
                                  % (pid, '\n# '.join(durbad[:5]))))
         cov = dict(crash=dict(workloads=len(wl), images=nimg, torn_images=ntorn, recoveries_compared_with_model=nimg - len(viol),
                               durable_programs_compared_with_Durable=ndur, durable_program_mismatches=len(durbad),
+                              complete_delete_programs_compared_with_DurableDelete=nfull,
                               syncs_under_load_checked_against_their_fsync=nsyncack,
                               delete_programs_compared_with_CrashDir=nprog, delete_program_mismatches=len(progbad),
                               correspondence_mismatches=len(mism), property_failures=len(viol),
